@@ -227,11 +227,11 @@ Definition d_bloom (a : args) : list (list Z) :=
   [[ first_fail
       [ (Bool.eqb present (negb (cfg 14 a =? 0)%Z), 80%Z);
         (negb present || (List.length f1 =? stored)%nat, 81%Z);
-        (negb present || bytes_eqb (bytes_of_sbbf f1) (bytes_of (arg 5 a)), 82%Z) ] ]].
+        (negb present || list_eqb (list_eqb N.eqb) f1 (sbbf_of_bytes (bytes_of (arg 5 a))), 82%Z) ] ]].
 
 (* ------------------------------------------------------------------ Sbbf driven directly
    args: 0 [num_bytes; fpp code; observed block count after fold_to_target_fpp]  1,2 inserted values
-   3 their hashes  4,5 probe values  6 their hashes *)
+   3 their hashes  4,5 probe values  6 their hashes; the bitsets are reported as little-endian u32 words *)
 Definition d_sbbf (a : args) : list (list Z) :=
   let nb0 := num_blocks_for_bytes (Z.to_N (nth 0 (arg 0 a) 0%Z)) in
   let nb1 := Z.to_nat (nth 2 (arg 0 a) 0%Z) in
@@ -239,7 +239,7 @@ Definition d_sbbf (a : args) : list (list Z) :=
   let kf := log2_ratio 40 nb0 nb1 in
   let f1 := if (kf =? 0)%nat then f0 else fold_n kf f0 in
   let probes := hashes_of (arg 6 a) in
-  [ [Z.of_nat nb0; Z.of_nat (List.length f1); 1%Z]; zs_of_bytes (bytes_of_sbbf f0); zs_of_bytes (bytes_of_sbbf f1);
+  [ [Z.of_nat nb0; Z.of_nat (List.length f1); 1%Z]; zs_of_bytes (List.concat f0); zs_of_bytes (List.concat f1);
     zs_of_bools (map (check_hash f0) probes); zs_of_bools (map (check_hash f1) probes) ].
 Definition s_sbbf_check (a : args) : list (list Z) :=
   let n := List.length (arg 1 a) in [ repeat 1%Z n; repeat 1%Z n ].
